@@ -164,6 +164,7 @@ pub struct Effect {
     pub scroll_down: bool,
     /// lines appended to the scrollback
     pub sb_push: usize,
+    pub above_push: usize,
     /// an auto-wrap happened
     pub wrapped: bool,
     pub conv: Option<ConvPoint>,
@@ -179,6 +180,10 @@ pub struct Model {
     /// the parked screen (primary while the alternate is showing and vice versa)
     pub other: Vec<MLine>,
     pub sb: Vec<MLine>,
+    /// alternate screen: rows scrolled off the top since the screen was entered / last trimmed.  They
+    /// are no scrollback (a trim drops them all) but until then `Vt::lines()` shows them, and nothing
+    /// but the trim may touch them.
+    pub above: Vec<MLine>,
     pub alt: bool,
     /// a resize happened while the alternate screen was showing: the parked primary will be
     /// re-wrapped by the real terminal when it is shown again and is adopted then
@@ -220,6 +225,7 @@ impl Model {
             view: vec![MLine::blank(cols, MPen::default()); rows],
             other: vec![MLine::blank(cols, MPen::default()); rows],
             sb: vec![],
+            above: vec![],
             alt: false,
             primary_stale: false,
             col: 0,
@@ -281,6 +287,9 @@ impl Model {
             if start == 0 && !self.alt {
                 self.sb.push(l);
                 self.eff.sb_push += 1;
+            } else if start == 0 {
+                self.above.push(l);
+                self.eff.above_push += 1;
             }
             let b = self.blank();
             self.view.insert(end - 1, b);
@@ -357,8 +366,8 @@ impl Model {
                 // newest scrollback line on a one-row region starting at row 0)
                 if self.row > 0 {
                     self.view[self.row - 1].wrapped = true;
-                } else if was_top0 && !self.alt {
-                    if let Some(l) = self.sb.last_mut() {
+                } else if was_top0 {
+                    if let Some(l) = if self.alt { self.above.last_mut() } else { self.sb.last_mut() } {
                         l.wrapped = true;
                     }
                 }
@@ -420,6 +429,7 @@ impl Model {
     fn to_alt(&mut self) {
         if !self.alt {
             self.alt = true;
+            self.above.clear();
             std::mem::swap(&mut self.saved, &mut self.other_saved);
             std::mem::swap(&mut self.view, &mut self.other);
             // every entry presents a blank alternate screen filled with the current pen
@@ -432,6 +442,7 @@ impl Model {
     fn to_primary(&mut self) -> bool {
         if self.alt {
             self.alt = false;
+            self.above.clear();
             std::mem::swap(&mut self.saved, &mut self.other_saved);
             std::mem::swap(&mut self.view, &mut self.other);
             if self.primary_stale {
@@ -471,6 +482,8 @@ impl Model {
         self.view = lines[vstart..].iter().map(MLine::of).collect();
         if !self.alt {
             self.sb = lines[..vstart].iter().map(MLine::of).collect();
+        } else {
+            self.above = lines[..vstart].iter().map(MLine::of).collect();
         }
         let c = vt.cursor();
         self.col = c.col;
